@@ -33,7 +33,7 @@ def main():
     sdir = os.path.join(HERE, "seeded")
     names = args or sorted(d for d in os.listdir(sdir) if os.path.isdir(os.path.join(sdir, d)))
     sh("git -C /repo worktree remove --force %s" % WT)
-    r = sh("git -C /repo worktree add --detach %s HEAD" % WT)
+    r = sh("git -C /repo worktree add --detach %s HEAD && cp /repo/spsdk/__version__.py %s/spsdk/__version__.py" % (WT, WT))
     if r.returncode:
         print(r.stderr)
         return 2
